@@ -30,6 +30,7 @@ CONSTANTS
   RenderFails, \* PT: the environment may make templates fail to render
   CacheMisses, \* TRUE: the informer cache may miss referenced resources (Pipeline)
   VerBumps,    \* TRUE: the environment may move the desired resources to another apiVersion of their kind
+  Legacies,    \* TRUE: the composed resources' managed fields may become what a client-side-apply writer left
   Forges,      \* TRUE: the desired resources' bodies may carry a stale composition-resource-name annotation
   FailKinds    \* ways the pipeline can fail (Pipeline mode): subset of {"fnerror","fatal","reqloop","badinput","nocreds"}
 
@@ -118,6 +119,13 @@ ChangeVer == /\ VerBumps /\ EnvOK /\ Toggle("ver") /\ Log(H("env", "ver", "", ""
 \* nothing about which resources exist, or under which name they are associated, changes
 \* (added after the seeded changes C01-m5 / C03-m6 - "keep an annotation that is already there" - were missed)
 ChangeForge == /\ Forges /\ EnvOK /\ Toggle("forge") /\ Log(H("env", "forge", "", "")) /\ UNCHANGED <<store, want, rfail>> /\ EnvUnch
+\* the managed fields of the existing composed resources are (again) what a client-side-apply writer left: one Update entry of
+\* manager "crossplane" - the state of an XR whose Composition was just moved from mode Resources to mode Pipeline, or that was
+\* last reconciled by a Crossplane without server-side apply. The function composer upgrades such resources (a JSON patch that
+\* clears the managed fields, pinned to the resourceVersion it read) after it has persisted the references and before it
+\* applies; nothing about which resources exist changes (added after the seeded changes C03-m9 - the upgrade moved in front
+\* of the pipeline - and C02-m10 - the upgrade patch lost its resourceVersion pin - were missed)
+ChangeLegacy == /\ Legacies /\ EnvOK /\ Toggle("legacy") /\ Log(H("env", "legacy", "", "")) /\ UNCHANGED <<store, want, rfail>> /\ EnvUnch
 \* a user (or a provider's finalizer) deletes a composed resource: it is gone, or stays with a deletionTimestamp
 UserDelete(o) == /\ EnvOK /\ Live(o) /\ store[o].ctrl = "xr"
                  /\ \E s \in {"deleting", "none"} :
@@ -127,7 +135,7 @@ UserDelete(o) == /\ EnvOK /\ Live(o) /\ store[o].ctrl = "xr"
 Finalize(o) == /\ EnvOK /\ store[o].st = "deleting"
                /\ store' = [store EXCEPT ![o] = Absent] /\ Log(H("env", "finalize", IdStr(o), ""))
                /\ UNCHANGED <<want, rfail, deco>> /\ EnvUnch
-Env == ChangeWant \/ ChangeRFail \/ ChangeVer \/ ChangeForge \/ \E o \in Ids : UserDelete(o) \/ Finalize(o)
+Env == ChangeWant \/ ChangeRFail \/ ChangeVer \/ ChangeForge \/ ChangeLegacy \/ \E o \in Ids : UserDelete(o) \/ Finalize(o)
 
 ----------------------------------------------------------------------------
 (* Reconcile plumbing.                                                     *)
